@@ -1602,8 +1602,10 @@ def _t_eval(target, _t, scope):
                 nxt.insert(0, cur)
             # handle the rest of the t_path in recursive calls
             cur = []
+            # (each child is the target of the remaining steps, also when
+            # the path as a whole is rooted in the scope)
             todo = TType()
-            todo.__ops__ = (root,) + t_path[i+2:]
+            todo.__ops__ = (T if root is S else root,) + t_path[i+2:]
             for child in nxt:
                 try:
                     cur.append(_t_eval(child, todo, scope))
